@@ -332,19 +332,22 @@ CHECKS["C09"] = dict(
                 "versioning-enabled bucket, from an absent key or an object that predates versioning (null version), with symbolic bodies, against a "
                 "reference history: distinct new ids, every version byte-exact by id, newest version (or missing) by key, listing = history, newest first, one latest; "
                 "following the version listing's markers page by page (page size 1 or 2) terminates and reports every entry exactly once. "
+                "H09-program also deletes the oldest version by id (only that entry goes). H09-copy-source: CopyObject / UploadPartCopy read their source through the history like GET "
+                "(newest version without id, the addressed version with id, refused when the key reads as missing or the id names a delete marker). "
                 "H09-suspend: the same oracle over programs that suspend versioning for one operation (the write or delete replaces the null version or marker, versions with ids stay) and enable it again.",
     harnesses=[
         dict(name="H09-program", entry="backend/posix.VfVersions", reach=["program-done", "paged"], **_FS),
+        dict(name="H09-copy-source", entry="backend/posix.VfCopyFromHistory", reach=["copy-by-version-id", "copy-of-a-deleted-key", "part-copy-of-a-deleted-key"], **_FS),
         dict(name="H09-suspend", entry="backend/posix.VfVersionsSuspend", reach=["program-done", "paged"], **_FS),
     ],
     assumptions=["file-system model; ULIDs are fresh increasing ids"],
-    outside=["programs longer than 2 (quick) / 3 (thorough) operations", "status switches other than enabled -> suspended -> enabled with one operation while suspended (H09-suspend quick: 3-4 operations of put / delete / delete newest by id; thorough: two operations while suspended or a second suspension, 4-5 operations, or all five writer kinds on 3-4 operations)", "version listings over several keys, with delimiter or prefix, page sizes above 2", "delete of a non-newest version by id"],
+    outside=["programs longer than 2 (quick) / 3 (thorough) operations", "status switches other than enabled -> suspended -> enabled with one operation while suspended (H09-suspend quick: 3-4 operations of put / delete / delete newest by id; thorough: two operations while suspended or a second suspension, 4-5 operations, or all five writer kinds on 3-4 operations)", "version listings over several keys, with delimiter or prefix, page sizes above 2", "delete by id of a version that is neither the newest nor the oldest"],
 )
 
 CHECKS["C11"] = dict(
     explanation="posix PutObject (new key / overwrite), DeleteObject, CompleteMultipartUpload, CopyObject (new / existing destination), UploadPart (a second part of an upload; afterwards the upload listing, "
                 "the part listing and the object listing show no left-over and the upload stays usable) and, in a bucket with versioning "
-                "enabled, overwriting PutObject, DeleteObject and DeleteObject by version id (newest version or marker: the previous one is re-exposed; older version) (previous version must stay retrievable by id) on the file-system model, killed before an arbitrary file-system step (every step "
+                "enabled, overwriting PutObject, DeleteObject and DeleteObject by version id (newest version or marker: the previous one is re-exposed; older version), and PutObject / DeleteObject / CompleteMultipartUpload onto a version with an id in an enabled or suspended bucket (previous version must stay retrievable by id) on the file-system model, killed before an arbitrary file-system step (every step "
                 "of the operation is a crash point; no deferred clean-up runs), both temp-file strategies; a fresh Posix value then reads the key: it must "
                 "be in its complete previous or complete new state (bytes, length, ETag consistent), an acknowledged upload persists, left-over "
                 "temporaries are not listed and block neither re-upload, delete nor bucket deletion.",
@@ -353,10 +356,11 @@ CHECKS["C11"] = dict(
         dict(name="H11-crash-copy", entry="backend/posix.VfCrashCopy", reach=["crashed", "completed-without-crash"], key_trace=['"crash before'], **_FS),
         dict(name="H11-crash-versioned", entry="backend/posix.VfCrashVersioned", reach=["crashed", "completed-without-crash"], key_trace=['"crash before'], **_FS),
         dict(name="H11-crash-delete-by-id", entry="backend/posix.VfCrashVersionedDeleteByID", reach=["crashed", "completed-without-crash"], key_trace=['"crash before'], **_FS),
+        dict(name="H11-crash-versioned-writers", entry="backend/posix.VfCrashVersionedWriters", reach=["crashed", "completed-without-crash"], key_trace=['"crash before'], **_FS),
         dict(name="H11-crash-uploadpart", entry="backend/posix.VfCrashUploadPart", reach=["crashed", "completed-without-crash"], key_trace=['"crash before'], **_FS),
     ],
     assumptions=["file-system model: every completed step is durable (no fsync modelling), no torn writes", "xattr metadata store"],
-    outside=["UploadPart crash points other than for part 2 of an upload with one acknowledged part", "versioned buckets: multipart completion, suspended versioning, histories longer than two versions; between the link and the removal of the stored copy a re-exposed version is listed twice until the next write (not asserted)",
+    outside=["UploadPart crash points other than for part 2 of an upload with one acknowledged part", "versioned buckets: histories longer than two versions, suspended buckets whose current version is the null version; between the link and the removal of the stored copy a re-exposed version is listed twice until the next write (not asserted)",
              "bodies longer than one byte (multi-write data paths)", "sidecar metadata store", "power loss (unsynced data): every completed step is taken as durable"],
 )
 
@@ -370,7 +374,7 @@ CHECKS["C05"] = dict(
         dict(name="H05-interleave-head", entry="backend/posix.VfInterleaveHead", reach=["interleaved"], key_trace=['"other operation runs before'], **_FS),
     ],
     assumptions=["file-system model with atomic namespace steps", "schedules in which BOTH operations are split (A1 B1 A2 B2) are not explored"],
-    outside=["more than two concurrent operations", "schedules that split both operations", "bodies longer than one (HEAD harness: two) bytes", "versioned buckets", "sidecar metadata store"],
+    outside=["more than two concurrent operations", "schedules that split both operations", "bodies longer than one (HEAD harness: two) bytes", "versioned buckets other than the overwrite / delete writers of H05-interleave", "sidecar metadata store"],
 )
 
 CHECKS["C17"] = dict(
